@@ -189,7 +189,7 @@ def main():
         st = {'dt': 0.01, 'ri_whfast.coordinates': 'REB_WHFAST_COORDINATES_' + co}
         us.append(dict(what='transparent', integ='WHFAST', N=2, steps=2, set=dict(st, **{'ri_whfast.safe_mode': 0, 'ri_whfast.keep_unsynchronized': 1})))
         us.append(dict(what='idempotent', integ='WHFAST', N=2, steps=2, set=dict(st, **{'ri_whfast.safe_mode': 0})))
-        us.append(dict(what='safe', integ='WHFAST', N=2, steps=2 if tier == 'quick' else 3, set=st, safe_field='ri_whfast.safe_mode', ext=(tier == 'thorough'), t_ms=(5000 if tier == 'quick' else 60000)))
+        us.append(dict(what='safe', integ='WHFAST', N=2, steps=2 if tier == 'quick' else 3, set=st, safe_field='ri_whfast.safe_mode', ext=(tier == 'thorough'), t_ms=(5000 if tier == 'quick' else 20000)))
     us.append(dict(what='transparent', integ='SABA', N=2, steps=2, set={'dt': 0.01, 'ri_saba.safe_mode': 0, 'ri_saba.keep_unsynchronized': 1}))
     us.append(dict(what='idempotent', integ='SABA', N=2, steps=2, set={'dt': 0.01, 'ri_saba.safe_mode': 0}))
     for ty in (('REB_SABA_1', 'REB_SABA_2') if tier == 'quick' else ('REB_SABA_1', 'REB_SABA_2', 'REB_SABA_4', 'REB_SABA_10_4', 'REB_SABA_10_6_4', 'REB_SABA_H_8_4_4')):
